@@ -80,6 +80,9 @@ def gen_tree(rng, xs, depth=0, counter=None, allow_init_fail=False):
     children = [gen_tree(rng, xs, depth + 1, counter, allow_init_fail) for _ in range(m)]
     if kind == 'ens':
         return {'t': 'ens', 'c': children, 'ff': rng.random() < 0.6}
+    if kind == 'sw' and xs and rng.random() < 0.5:
+        # switch() itself (user code) fails for one input
+        return {'t': kind, 'c': children, 'sw_fail': {str(rng.choice(list(xs))): 36}}
     return {'t': kind, 'c': children}
 
 
@@ -102,6 +105,8 @@ def spec(tree, v):
             cur = spec(c, cur[1])
         return cur
     if t == 'sw':
+        if isinstance(v, int) and str(v) in tree.get('sw_fail', {}):
+            return ('err', tree['sw_fail'][str(v)])
         idx = switch_index(v, len(tree['c']))
         return spec(tree['c'][idx], v)
     rs = [spec(c, v) for c in tree['c']]
@@ -164,7 +169,7 @@ def exc_details(e):
     if is_remote_exception(e):
         text += get_remote_traceback(e)
     return {'cls': type(e).__name__, 'args': [a if isinstance(a, (int, str)) else repr(a)[:40] for a in e.args[:1]],
-            'site': ('in call' in text) or ('in _pre' in text), 'nframes': text.count('File "')}
+            'site': ('in call' in text) or ('in _pre' in text) or ('in switch' in text), 'nframes': text.count('File "')}
 
 
 def jsonable(c):
@@ -234,8 +239,12 @@ def build(tree, S, calls_log):
         return EnsembleServlet(*children, fail_fast=tree['ff'])
     m = len(children)
 
+    sw_fail = tree.get('sw_fail', {})
+
     class Sw(SwitchServlet):
         def switch(self, x):
+            if isinstance(x, int) and str(x) in sw_fail:
+                raise StageErr(sw_fail[str(x)])
             return switch_index(x, m)
     return Sw(*children)
 
@@ -429,6 +438,8 @@ def spec_b(tree, v, calls):
             cur = spec_b(c, cur[1], calls)
         return cur
     if t == 'sw':
+        if isinstance(v, int) and str(v) in tree.get('sw_fail', {}):
+            return ('err', tree['sw_fail'][str(v)])
         return spec_b(tree['c'][switch_index(v, len(tree['c']))], v, calls)
     rs = [spec_b(c, v, calls) for c in tree['c']]
     if tree['ff']:
